@@ -31,3 +31,8 @@ claim("C09", "typed analysis of the reconstructed server runtime (go/cfg precede
       "Structural: validateHeaders precedes every body read and the dispatch on every CFG path of the emitted handler and its failure arm writes the violation and returns; the validation loop reports every offending header under its name; the merge stores required method headers over service headers under one key; for every declared (type, format) pair from the union of the three vocabularies the constraint class each server enforces is implied by what the OpenAPI parameter publishes (the OpenAPI side is evaluated by walking mapHeaderTypeToOpenAPI / convertHeadersToParameters with the pair fixed); TS route and OpenAPI use the override merge; header literals carry all seven fields. Accept/reject sets of the individual validators over header VALUES are not decided.",
       "http.Header.Get canonicalises names; TypeScript is read lexically (case labels), not type-checked.",
       "DESIGN.md 5/C09")
+
+claim("C10", "typed analysis of the reconstructed server runtime (return tables, hook typestate with effect summaries, sibling agreement of content-type dispatch tables) + AST rules on parsed client variants + lexical TS tables",
+      "Structural: the emitted status and default-body tables, the error-hook typestate (no write after the hook wrote, no second WriteHeader, defaults on nil), one content-type dispatch table shared by all writers and the binder with a matching Content-Type header, the dotted violation path, the Go/TS client mapping of 400 and other failures (one content-type variable for request, header, response and error decoding), and the error interface of *Error messages. Byte-level bodies and arbitrary hook behaviour are not decided.",
+      "errors.As semantics, http.ResponseWriter contract; TypeScript is read lexically.",
+      "DESIGN.md 5/C10")
